@@ -12,3 +12,9 @@ Example C08_instance :
   parse (TVar 0 :: TAnd :: TNot :: TVar 1 :: TEof :: nil) = Ok (FBin BAnd (FVar 0) (FNot (FVar 1))) nil /\
   parse (TNot :: TOpenParen :: TVar 0 :: TCloseSquare :: TVar 1 :: TEof :: nil) = Err.
 Proof. split; vm_compute; reflexivity. Qed.
+
+(** the lexing relation is functional: the scanner's output is THE tokenisation of a text (leftmost, longest
+    lexeme; complete comments and characters at which nothing starts are skipped) *)
+From Rsbdd Require Import Syntax.LexUnique.
+Theorem C08_lex_unique uc l ts : Lexes uc l ts <-> ts = lex_raw uc l.
+Proof. exact (LexUnique.C08_lex_unique uc l ts). Qed.
